@@ -1,5 +1,6 @@
 import FitProps.EndToEndLemmas
 import FitProps.EndToEndDescLemmas
+import FitProps.EndToEndBackLemmas
 /-!
 # C01 — Encode then decode returns the messages that were written (END TO END: protocol values, the real validator)
 
@@ -153,27 +154,174 @@ theorem C01_e2e_reencode_partial (c : Cfg) (o : Fit.DecApi.Opts) (files : List F
     exact AllMatch.cons (seqMatches_literal o.fac c.w.arch a {} b (hnorm a (by simp)) hab)
       (ih (fun k hk => hnorm k (List.mem_cons_of_mem _ hk)))
 
-/-- the last sentence of the property at full strength: for the messages the decoder returned for ANY input bytes -/
-def C01_e2e_reencode_full : Prop :=
-  ∀ (c : Cfg) (o : Fit.DecApi.Opts) (input : List Nat) (fits : List Fit.DecApi.Fit) (kepts : List (List Message)) (bytes : List Nat),
-    decodeChain o input = (fits, none) → fits ≠ [] → encodeChain c (backFiles fits) 0 = (kepts, bytes, none) →
-    CfgOK c (backFiles fits) → PlainOpts o → (∀ kept ∈ kepts, inDomain o.fac kept = true) → bytes.length < 4294967296 →
-    ∃ seqs, decodeValues o bytes = (seqs, none) ∧
-      AllMatch (fun kept ns => seqMatches idValue false o.fac c.w.arch {} kept ns = true) kepts seqs
+/-! ### the last sentence of the property, about DECODER OUTPUT: "whenever the encoder accepts the messages the decoder
+returned for some input, encoding them and decoding again gives those same messages" -/
 
-/-- what separates `C01_e2e_reencode_partial` from it: that what validation retains of the messages `Fit.DecApi` returns
-(for ANY input bytes, not only encoder output) carries values in wire-normal form and lies outside the finding classes.
-For encoder output it follows from `C01_e2e_actual` value by value (the example below evaluates an instance); for arbitrary
-input it needs an invariant of `decodeField` over all byte strings (a decoded value is aligned with the base type it is
-returned under, its array-ness is what the size implies) that the decoder-API lemma layer (C03: safety only) does not
-provide yet. At the value layer it holds for every base type and ANY bytes (`C06_unmarshal_reencode`: what
-`UnmarshalValue` returned re-marshals and reads back as itself). The one class that refuted it on the pinned tree — a
-profile-bool ARRAY field holding bytes other than 0 / 1 / 255, finding KF-C01-boolarr — was repaired in /repo 5da5106
-(`C01_e2e_reencode_boolarr_roundtrip`); no refuting class is known. -/
-def C01_e2e_dec_output_normal : Prop :=
-  ∀ (c : Cfg) (o : Fit.DecApi.Opts) (input : List Nat) (fits : List Fit.DecApi.Fit) (kepts : List (List Message)) (bytes : List Nat),
-    decodeChain o input = (fits, none) → encodeChain c (backFiles fits) 0 = (kepts, bytes, none) → PlainOpts o →
-    ∀ kept ∈ kepts, seqNormal o.fac c.w.arch {} kept = true ∧ noKF o.fac kept = true
+/-- what the validator guarantees of each file of an accepted chain, and that it ran on the file's messages -/
+theorem gate_validateAll (c : Cfg) (f : FileIn) (kept : List Message) (h : gate c f = .ok kept) :
+    Fit.Validator.validateAll c.D c.vo {} f.msgs = .ok kept := by
+  simp only [gate] at h
+  split at h
+  · cases h
+  · simp only [Fit.Validator.gateBatch] at h
+    cases hpa : Fit.Validator.protoAll (fileVersion c f) f.msgs with
+    | panic => rw [hpa] at h; cases h
+    | err e => rw [hpa] at h; cases h
+    | ok u =>
+      rw [hpa] at h
+      simp only at h
+      cases hva : Fit.Validator.validateAll c.D c.vo {} f.msgs with
+      | error e => rw [hva] at h; cases h
+      | ok k =>
+        rw [hva] at h
+        simp only [Except.ok.injEq] at h
+        subst h; rfl
+
+/-- **WHAT VALIDATION RETAINS OF DECODER OUTPUT (the reading of "those same messages").** When the encoder accepts the
+sequences a decoder returned (`backFiles`: header members and messages as they are), what its message validator retained of
+each sequence is `Fit.E2E.retained`: every message, every field and developer field AS IT IS and in order, minus exactly the
+invalid-valued ones when invalid values are omitted (a field whose value is invalid for its base type; a developer field
+whose value is invalid for the base type of the first field description of its (index, number)) — nothing restored or
+converted — provided no float64-typed developer value meets a field description with scale / offset (class `kfF64Dev`,
+finding KF-C01-f64dev: there the validator rewrites the value). Holds for ANY list of decoded sequences (no hypothesis on
+where they come from). -/
+theorem C01_e2e_retained (c : Cfg) (fits : List Fit.DecApi.Fit) (kepts : List (List Message)) (bytes : List Nat)
+    (henc : encodeChain c (backFiles fits) 0 = (kepts, bytes, none))
+    (hR : ∀ f ∈ fits, kfF64Dev c.vo {} f.msgs = false) :
+    kepts = fits.map (fun f => retained c.vo.omitInvalid {} f.msgs) := by
+  obtain ⟨hlen, _, hgates⟩ := encodeChain_ok c (backFiles fits) 0 kepts bytes henc
+  have hlen' : kepts.length = fits.length := by simpa [backFiles] using hlen
+  apply List.ext_getElem (by simp [hlen'])
+  intro i h1 h2
+  simp only [List.getElem_map]
+  have hi : i < fits.length := by simpa using h2
+  have hmem : ((backFiles fits)[i]'(by simp [backFiles, hi]), kepts[i]) ∈ (backFiles fits).zip kepts := by
+    rw [List.mem_iff_getElem]
+    exact ⟨i, by simp [backFiles]; omega, by simp⟩
+  have hg := hgates _ hmem
+  have hva := gate_validateAll c _ _ hg
+  have hmsgs : ((backFiles fits)[i]'(by simp [backFiles, hi])).msgs = (fits[i]).msgs.map ofDecoded := by simp [backFiles]
+  rw [hmsgs] at hva
+  exact validateAll_retained c.D c.vo _ {} _ hva (hR _ (List.getElem_mem hi))
+
+/-- **DECODER OUTPUT IS IN WIRE-NORMAL FORM** (formerly the unproved `def C01_e2e_dec_output_normal`). For ARBITRARY input
+bytes (any stream; `e` = how the `Next` / `Decode` loop ended: the sequences returned before a later one failed are
+included), decoder with component expansion off and no listeners, a factory that reads field 253 as a plain uint32 where it
+knows it and knows the three key members of `field_description` (the standard factory): when the encoder accepts the returned
+sequences, what its validator retained of each (`C01_e2e_retained`) (i) meets the typing assumptions of the end-to-end
+theorems (`inDomain`: nothing is assumed about decoder output any more), (ii) lies outside the three finding classes of the
+forward direction (`noKF`), (iii) is in wire-normal form for the decoder's factory (`seqNormal`: every value is its own normal
+form under the flags it will be read with) — (iii) outside two explicit classes of decoder output: `kfUndersized` (a field
+the factory knows as an array, written with fewer bytes than one element: returned as a scalar) and `kfPieces` (a string
+field without profile entry / a developer string field whose bytes hold ≥ 2 non-empty segments of which < 2 survive the
+UTF-8 cleaning: returned as an array of < 2 strings). -/
+theorem C01_e2e_dec_output_normal (c : Cfg) (o : Fit.DecApi.Opts) (input : List Nat) (fits : List Fit.DecApi.Fit)
+    (e : Option Fit.DecApi.Out) (kepts : List (List Message)) (bytes : List Nat)
+    (hdec : decodeChain o input = (fits, e)) (henc : encodeChain c (backFiles fits) 0 = (kepts, bytes, none))
+    (hb : ∀ b ∈ input, b < 256) (ho : PlainOpts o) (hfac : facOKB o.fac = true) (hkeys : keysKnown o.fac = true)
+    (hR : ∀ f ∈ fits, kfF64Dev c.vo {} f.msgs = false) :
+    kepts = fits.map (fun f => retained c.vo.omitInvalid {} f.msgs) ∧
+    ∀ f ∈ fits, inDomain o.fac (retained c.vo.omitInvalid {} f.msgs) = true ∧
+      noKF o.fac (retained c.vo.omitInvalid {} f.msgs) = true ∧
+      (kfUndersized f.msgs = false → kfPieces f.msgs = false →
+        seqNormal o.fac c.w.arch {} (retained c.vo.omitInvalid {} f.msgs) = true) := by
+  have hret := C01_e2e_retained c fits kepts bytes henc hR
+  refine ⟨hret, ?_⟩
+  intro f hf
+  have hgood : ∀ m ∈ f.msgs, MsgGood o.fac m := by
+    have := decodeChain_good o input hb ho hfac f (by rw [hdec]; exact hf)
+    exact this
+  -- what acceptance guarantees of the retained messages
+  obtain ⟨hlen, _, hgates⟩ := encodeChain_ok c (backFiles fits) 0 kepts bytes henc
+  obtain ⟨i, hi, rfl⟩ := List.mem_iff_getElem.mp hf
+  have hk : KeptOK {} (retained c.vo.omitInvalid {} (fits[i]).msgs) := by
+    have h1 : i < kepts.length := by rw [hlen]; simp [backFiles, hi]
+    have hmem : ((backFiles fits)[i]'(by simp [backFiles, hi]), kepts[i]) ∈ (backFiles fits).zip kepts := by
+      rw [List.mem_iff_getElem]
+      exact ⟨i, by simp [backFiles]; omega, by simp⟩
+    have hva := gate_validateAll c _ _ (hgates _ hmem)
+    have hko := (keptOK_of_validateAll c.D c.vo _ {} _ hva).1
+    have : kepts[i] = retained c.vo.omitInvalid {} (fits[i]).msgs := by
+      have := congrArg (fun l => l[i]?) hret
+      simp only [List.getElem?_map, List.getElem?_eq_getElem h1, List.getElem?_eq_getElem hi, Option.map_some,
+        Option.some.injEq] at this
+      exact this
+    rw [← this]; exact hko
+  obtain ⟨d1, d2, d3, d4, d5⟩ := retained_good o.fac hfac hkeys c.w.arch c.vo.omitInvalid _ {} hgood hk
+  refine ⟨by rw [inDomain_eq, hfac, d1]; rfl, ?_, d5⟩
+  simp only [noKF, kfZero, kfArr, kfFFFD, d2, d3, d4, Bool.not_false, Bool.and_self]
+
+/-- **RE-ENCODING DECODER OUTPUT: THE LAST SENTENCE OF THE PROPERTY.** For ARBITRARY input bytes: whenever the encoder
+(any option combination, real validator model) accepts the sequences the decoder returned for them (`hdec`, `henc`), then —
+outside the three classes of decoder output named in the hypotheses `hR` (`kfF64Dev`), `hN` (`kfUndersized`, `kfPieces`),
+each an open finding with a kernel-evaluated witness below — (1) what validation retained is the decoded messages as they
+are minus their invalid-valued fields (`retained`), and (2) decoding the written bytes again returns, without error, one
+sequence per sequence whose messages are THOSE retained messages: same numbers and order, every field and developer field
+with the same number, base type and value AS IT IS (`idValue`: identical, not merely equivalent), each message with its
+first timestamp where it was or — when the encoder moved it into a compressed-timestamp header — in front.
+"Those same messages" is therefore read as: the messages the decoder returned, as far as message validation retained them;
+an invalid-valued field of a decoded message (e.g. the invalid sentinel, which decoders return like any other value) is not
+written by the default validator and is absent after the second decoding. Typing hypotheses only: `CfgOK`, `PlainOpts`
+(expansion off, no listeners), `facOKB` / `keysKnown` (the factory reads field 253 and the key members of field_description
+as the standard factory does), input bytes are bytes, the written stream is below 4 GiB. -/
+theorem C01_e2e_reencode (c : Cfg) (o : Fit.DecApi.Opts) (input : List Nat) (fits : List Fit.DecApi.Fit)
+    (e : Option Fit.DecApi.Out) (kepts : List (List Message)) (bytes : List Nat)
+    (hdec : decodeChain o input = (fits, e)) (hne : fits ≠ [])
+    (henc : encodeChain c (backFiles fits) 0 = (kepts, bytes, none))
+    (hc : CfgOK c (backFiles fits)) (hb : ∀ b ∈ input, b < 256) (ho : PlainOpts o) (hfac : facOKB o.fac = true)
+    (hkeys : keysKnown o.fac = true) (hsmall : bytes.length < 4294967296)
+    (hR : ∀ f ∈ fits, kfF64Dev c.vo {} f.msgs = false)
+    (hN : ∀ f ∈ fits, kfUndersized f.msgs = false ∧ kfPieces f.msgs = false) :
+    kepts = fits.map (fun f => retained c.vo.omitInvalid {} f.msgs) ∧
+    ∃ seqs, decodeValues o bytes = (seqs, none) ∧
+      AllMatch (fun kept ns => seqMatches idValue false o.fac c.w.arch {} kept ns = true) kepts seqs := by
+  obtain ⟨hret, hall⟩ := C01_e2e_dec_output_normal c o input fits e kepts bytes hdec henc hb ho hfac hkeys hR
+  refine ⟨hret, ?_⟩
+  have hk : ∀ kept ∈ kepts, ∃ f ∈ fits, kept = retained c.vo.omitInvalid {} f.msgs := by
+    intro kept hkm
+    rw [hret] at hkm
+    obtain ⟨f, hf, rfl⟩ := List.mem_map.mp hkm
+    exact ⟨f, hf, rfl⟩
+  have hne' : backFiles fits ≠ [] := by
+    intro h
+    have : (backFiles fits).length = 0 := by rw [h]; rfl
+    simp only [backFiles, List.length_map] at this
+    exact hne (List.eq_nil_of_length_eq_zero this)
+  exact C01_e2e_reencode_partial c o (backFiles fits) kepts bytes henc hne' hc ho
+    (fun kept hkm => by obtain ⟨f, hf, rfl⟩ := hk kept hkm; exact (hall f hf).1) hsmall
+    (fun kept hkm => by obtain ⟨f, hf, rfl⟩ := hk kept hkm; exact (hall f hf).2.1)
+    (fun kept hkm => by obtain ⟨f, hf, rfl⟩ := hk kept hkm; exact (hall f hf).2.2 (hN f hf).1 (hN f hf).2)
+
+/-- **… and in the two shape classes nothing is lost.** Without the hypothesis `hN`: also when a decoded field lies in
+`kfUndersized` / `kfPieces`, decoding the written bytes again returns the NORMAL FORM of the retained messages
+(`normalValue`): the same numbers / strings in the same order, a one-element array where the decoder first returned the
+scalar, the scalar string where it first returned a one-element string array. What differs from the first decoding in those
+classes is the shape of the value (scalar / array), never its content. -/
+theorem C01_e2e_reencode_normal (c : Cfg) (o : Fit.DecApi.Opts) (input : List Nat) (fits : List Fit.DecApi.Fit)
+    (e : Option Fit.DecApi.Out) (kepts : List (List Message)) (bytes : List Nat)
+    (hdec : decodeChain o input = (fits, e)) (hne : fits ≠ [])
+    (henc : encodeChain c (backFiles fits) 0 = (kepts, bytes, none))
+    (hc : CfgOK c (backFiles fits)) (hb : ∀ b ∈ input, b < 256) (ho : PlainOpts o) (hfac : facOKB o.fac = true)
+    (hkeys : keysKnown o.fac = true) (hsmall : bytes.length < 4294967296)
+    (hR : ∀ f ∈ fits, kfF64Dev c.vo {} f.msgs = false) :
+    kepts = fits.map (fun f => retained c.vo.omitInvalid {} f.msgs) ∧
+    ∃ seqs, decodeValues o bytes = (seqs, none) ∧
+      AllMatch (fun kept ns => seqMatches normalValue false o.fac c.w.arch {} kept ns = true) kepts seqs := by
+  obtain ⟨hret, hall⟩ := C01_e2e_dec_output_normal c o input fits e kepts bytes hdec henc hb ho hfac hkeys hR
+  refine ⟨hret, ?_⟩
+  have hk : ∀ kept ∈ kepts, ∃ f ∈ fits, kept = retained c.vo.omitInvalid {} f.msgs := by
+    intro kept hkm
+    rw [hret] at hkm
+    obtain ⟨f, hf, rfl⟩ := List.mem_map.mp hkm
+    exact ⟨f, hf, rfl⟩
+  have hne' : backFiles fits ≠ [] := by
+    intro h
+    have : (backFiles fits).length = 0 := by rw [h]; rfl
+    simp only [backFiles, List.length_map] at this
+    exact hne (List.eq_nil_of_length_eq_zero this)
+  exact C01_e2e_roundtrip_partial c o (backFiles fits) kepts bytes henc hne' hc ho
+    (fun kept hkm => by obtain ⟨f, hf, rfl⟩ := hk kept hkm; exact (hall f hf).1) hsmall
+    (fun kept hkm => by obtain ⟨f, hf, rfl⟩ := hk kept hkm; exact (hall f hf).2.1)
 
 /-- the full-strength statement: the round trip to the normal form for EVERY accepted input of the domain -/
 def C01_e2e_roundtrip_full : Prop :=
